@@ -1221,6 +1221,50 @@ fn gen_c10(lvl: u8) -> Vec<Scenario> {
             }
         }
     }
+    // the largest timeout there is: the operation simply completes (or fails) as if it had no deadline
+    for timed in [SendKind::AskTO(u32::MAX), SendKind::TellTO(u32::MAX)] {
+        for erased in [false, true] {
+            for shape in 0..3 {
+                let mut ids = Ids(0);
+                let mut clients = Vec::new();
+                let mut actors = vec![ActorSpec::plain(1)];
+                let mut m = MsgSpec::m1(ids.next()).steps(if shape == 1 { vec![Step::Sleep(20)] } else { vec![] });
+                m.entry_yield = false;
+                let mut steps = vec![];
+                if shape == 1 {
+                    // the mailbox is full until t=10
+                    let mut mb = MsgSpec::m1(ids.next()).steps(vec![Step::Sleep(10)]);
+                    mb.entry_yield = false;
+                    let mut filler = MsgSpec::quick(ids.next());
+                    filler.entry_yield = false;
+                    clients.push(Program { slots: vec![(0, 0)], steps: vec![send(SendKind::Tell, 0, mb), send(SendKind::Tell, 0, filler)], auto_yield: false, free: false });
+                    steps.push(Step::Yield);
+                }
+                let tslot: u8 = if shape == 2 { REG_BASE + 1 } else { 0 };
+                let slot = if erased {
+                    steps.push(Step::CloneH { from: tslot, to: 5 });
+                    steps.push(Step::Erase { from: 5, to: 6, kind: if timed.is_ask() { EraseKind::Ask } else { EraseKind::Tell }, owned: true });
+                    steps.push(Step::Fuse);
+                    6
+                } else {
+                    tslot
+                };
+                steps.push(send(timed, slot, m));
+                if shape == 2 {
+                    // issued by a handler of another actor, whose own caller waits for the relayed answer
+                    actors = vec![ActorSpec::plain(2), ActorSpec::plain(2)];
+                    let relay = MsgSpec::m1(ids.next()).steps(steps);
+                    clients.push(Program::new(vec![(0, 0)], vec![send(SendKind::Ask, 0, relay)]));
+                } else {
+                    clients.push(Program::new(vec![(0, 0)], steps));
+                }
+                n += 1;
+                let mut sc = scn(format!("c10-{n}-extreme-{timed:?}-erased{erased}-shape{shape}"), actors, clients, &[]);
+                sc.registry = shape == 2;
+                out.push(sc);
+            }
+        }
+    }
     // two concurrent timed operations
     for (t1, t2) in [(10u32, 20u32), (10, 10), (20, 10)] {
         let mut ids = Ids(0);
@@ -1526,6 +1570,8 @@ enum EdgeKind {
     Ask,
     AskTO,
     Erased,
+    /// ask_join: the reply is the JoinHandle of a task the callee spawns
+    Join,
 }
 
 /// steps that make the running hook ask actor `to` with message `m`
@@ -1534,6 +1580,7 @@ fn ask_steps(kind: EdgeKind, to: usize, m: MsgSpec) -> Vec<Step> {
     match kind {
         EdgeKind::Ask => vec![send(SendKind::Ask, reg, m)],
         EdgeKind::AskTO => vec![send(SendKind::AskTO(30), reg, m)],
+        EdgeKind::Join => vec![send(SendKind::AskJoin, reg, m.kind(MsgKind::MJ))],
         EdgeKind::Erased => vec![
             Step::CloneH { from: reg, to: 5 },
             Step::Erase { from: 5, to: 6, kind: EraseKind::Ask, owned: true },
@@ -1646,6 +1693,21 @@ fn gen_c14(lvl: u8) -> Vec<Scenario> {
             out.push(ring(len, &vec![EdgeHook::Handler; len], &ks, format!("c14-{n}-ring{len}-{ks:?}")));
             n += 1;
             out.push(chain(len, &ks, format!("c14-{n}-chain{len}-{ks:?}")));
+        }
+    }
+    // rings in which one edge (or every edge) is an ask_join; ring of one = ask_join to oneself
+    for len in 1..=3usize {
+        for j in 0..=len {
+            let mut ks = vec![EdgeKind::Ask; len];
+            if j < len {
+                ks[j] = EdgeKind::Join;
+            } else if len > 1 {
+                ks = vec![EdgeKind::Join; len];
+            } else {
+                continue;
+            }
+            n += 1;
+            out.push(ring(len, &vec![EdgeHook::Handler; len], &ks, format!("c14-{n}-ring{len}-{ks:?}")));
         }
     }
     // an ask that timed out while still queued, a retry to the same callee, and then the callee asks back:
@@ -1784,6 +1846,55 @@ fn gen_c15(lvl: u8) -> Vec<Scenario> {
         let mut s = scn(format!("c15-{n}-gave-up-unanswered-{how}"), actors, clients, &["quiet"]);
         s.registry = true;
         out.push(s);
+    }
+    // ask_join: once the JoinHandle has been handed over the caller waits for a task, not for the callee; when the
+    // callee then asks the caller, that ask simply queues
+    for slow_task in [false, true] {
+        for erased_back in [false, true] {
+            let mut ids = Ids(0);
+            let mut job = MsgSpec::quick(ids.next()).kind(MsgKind::MJ);
+            job.steps = if slow_task { vec![Step::Sleep(20)] } else { vec![Step::Yield, Step::Yield] };
+            let go = MsgSpec::m1(ids.next()).steps(vec![send(SendKind::AskJoin, REG_BASE + 1, job)]);
+            let echo = MsgSpec::quick(ids.next());
+            let back = MsgSpec::m1(ids.next()).steps(ask_steps(if erased_back { EdgeKind::Erased } else { EdgeKind::Ask }, 0, echo));
+            let c0 = Program::new(vec![(0, 0)], vec![send(SendKind::Tell, 0, go)]);
+            let c1 = Program::new(vec![(0, 1)], vec![send(SendKind::Tell, 0, back)]);
+            n += 1;
+            let mut s = scn(format!("c15-{n}-join-pending-slow{slow_task}-erasedback{erased_back}"), vec![ActorSpec::plain(3), ActorSpec::plain(3)], vec![c0, c1], &["quiet"]);
+            s.registry = true;
+            out.push(s);
+        }
+    }
+    // the ask is made inside a handler but awaited by a detached task: the handler's actor waits for nobody, and the
+    // callee may ask it while serving the request
+    for erased in [false, true] {
+        for three in [false, true] {
+            let mut ids = Ids(0);
+            let echo = MsgSpec::quick(ids.next());
+            // the request handled by A1 asks A0 back (directly, or through A2)
+            let req = if three {
+                let fwd = MsgSpec::m1(ids.next()).steps(ask_steps(EdgeKind::Ask, 0, echo));
+                MsgSpec::m1(ids.next()).steps(ask_steps(EdgeKind::Ask, 2, fwd))
+            } else {
+                MsgSpec::m1(ids.next()).steps(ask_steps(EdgeKind::Ask, 0, echo))
+            };
+            let mut steps = Vec::new();
+            if erased {
+                steps.push(Step::CloneH { from: REG_BASE + 1, to: 5 });
+                steps.push(Step::Erase { from: 5, to: 6, kind: EraseKind::Ask, owned: true });
+                steps.push(Step::SpawnAsk { slot: 6, msg: req });
+            } else {
+                steps.push(Step::SpawnAsk { slot: REG_BASE + 1, msg: req });
+            }
+            let go = MsgSpec::m1(ids.next()).steps(steps);
+            let c0 = Program::new(vec![(0, 0)], vec![send(SendKind::Tell, 0, go)]);
+            let c1 = Program::new(vec![(0, 0), (1, 1)], vec![send(SendKind::Ask, 1, MsgSpec::quick(ids.next())), send(SendKind::Ask, 0, MsgSpec::quick(ids.next()))]);
+            n += 1;
+            let na = if three { 3 } else { 2 };
+            let mut s = scn(format!("c15-{n}-detached-ask-erased{erased}-three{three}"), (0..na).map(|_| ActorSpec::plain(3)).collect(), vec![c0, c1], &["quiet"]);
+            s.registry = true;
+            out.push(s);
+        }
     }
     // an ask whose future is destroyed by unwinding (a joined branch of the same handler panics)
     for callee_dies in [false, true] {
@@ -2181,6 +2292,23 @@ fn gen_c18(lvl: u8) -> Vec<Scenario> {
     take(gen_c07(0), 90);
     take(gen_c08(0), 4);
     take(gen_c10(0), 5);
+    take(gen_c10(0).into_iter().filter(|s| s.name.contains("-extreme-")).collect(), 1);
+    // ask_join from a handler while the callee's next message asks back (no ask cycle at any moment), and asks
+    // awaited by detached tasks
+    // (the callee's ask is issued at t=5, after the ask phase of the ask_join and before its task ends at t=20)
+    take(
+        gen_c15(0)
+            .into_iter()
+            .filter(|s| s.name.contains("-join-pending-slowtrue") || s.name.contains("-detached-ask-"))
+            .map(|mut s| {
+                if s.name.contains("-join-pending-") {
+                    s.clients[1].steps.insert(0, Step::Sleep(5));
+                }
+                s
+            })
+            .collect(),
+        1,
+    );
     take(gen_c11(0), 2);
     take(gen_c13(0), 12);
     // hooks that ask other actors, but never back (exercises the wait-for bookkeeping without any cycle)
@@ -2286,8 +2414,11 @@ fn gen_c12(lvl: u8) -> Vec<Scenario> {
         StopErr,
         SelfAskDeadlock,
         CycleWithPeer,
+        /// V's handler panics while an ask it has just sent is still queued at the busy peer P
+        AskUnwound,
     }
     let mut crashes = vec![
+        Crash::AskUnwound,
         Crash::StartPanic,
         Crash::StartErr,
         Crash::HandlerPanic(1),
@@ -2347,6 +2478,7 @@ fn gen_c12(lvl: u8) -> Vec<Scenario> {
                 Crash::HandlerPanic(1) => d1 = d1.out(Outcome::Panic(4)),
                 Crash::HandlerPanic(2) => mv1 = mv1.out(Outcome::Panic(4)),
                 Crash::HandlerPanic(3) => d3 = d3.out(Outcome::Panic(4)),
+                Crash::AskUnwound => d2 = d2.steps(vec![Step::JoinAskPanic { slot: REG_BASE + 1, msg: MsgSpec::m1(ids.next()) }]),
                 Crash::SelfAskDeadlock => d2 = d2.steps(vec![send(SendKind::Ask, REG_BASE, MsgSpec::quick(ids.next()))]),
                 // V asks P while P (in work1) is asking V: a genuine cycle, the detector kills one of the two
                 Crash::CycleWithPeer => d2 = d2.steps(vec![send(SendKind::Ask, REG_BASE + 1, MsgSpec::quick(ids.next()))]),
